@@ -8,6 +8,9 @@ import h_doc
 from h_doc import arena_std, std_json, check_ri, inl_text
 
 # ---------------------------------------------------------------- documents
+# the heading text that repeats across notes: long and non-ASCII, so byte offsets and char boundaries differ (265 bytes, 135 chars)
+SAME = 'SAMEx' + '\u00f6' * 130
+
 def mk_doc(h, spec, counter):
     """spec: list of block specs -> (neutral blocks, Document value).  Block specs:
     ('H',) heading, ('P',) para, ('R', url) reference para, ('I', url) para with inline link, ('T',) table, ('C',) code,
@@ -37,7 +40,7 @@ def mk_doc(h, spec, counter):
             neutral.append({'k': 'Header', 't': t, 'lv': lv, 'lr': l}); vals.append(h.header(lv, [h.istr(t)], r))
         elif k == 'Hs':      # heading whose text repeats in other notes
             r, l = lr()
-            neutral.append({'k': 'Header', 't': 'SAME', 'lv': 1, 'lr': l}); vals.append(h.header(1, [h.istr('SAME')], r))
+            neutral.append({'k': 'Header', 't': SAME, 'lv': 1, 'lr': l}); vals.append(h.header(1, [h.istr(SAME)], r))
         elif k == 'QH':
             t = tok(); r, l = lr()
             neutral.append({'k': 'Quote', 'lr': l, 'c': [{'k': 'Header', 't': t, 'lv': 1, 'lr': l}]})
@@ -334,6 +337,9 @@ class LibHarness(Harness):
         texts = {upd: self.new_token(old_spec, h, counter), oth: self.new_token(other_spec, h, counter)}
         texts0 = dict(texts)
         step_texts = []
+        # known before anything runs, so that a panic while loading the library can be replayed
+        ctx.input_desc = {'initial': {upd: old_spec, oth: other_spec}, 'history': [],
+                          'texts0': {upd: render_neutral(self.cur_docs[texts0[upd]][0]), oth: render_neutral(self.cur_docs[texts0[oth]][0])}, 'step_texts': []}
         db = self.fresh_db(ex, texts)
         dbref = Ref(Cell(db))
         g = db.get('graph')
